@@ -335,6 +335,7 @@ def part_mem_passes(ctx):
     ctx.log(f"  c14m: validators evaluated at {time.time()-t0:.0f}s")
     entries = {c["name"]: c for c in progs}
     reported = 0
+    seen_keys = set()
     searched = {}
     for r, v in zip(recs, verdicts):
         if v == "rejected" and r["new_phis"]:
@@ -359,8 +360,10 @@ def part_mem_passes(ctx):
         thm = {"LoadElimination": "le_check_sound", "CSE": "cse_check_sound", "DeadStoreElimination": "dse_check_sound"}[r["pass_name"]]
         detail = {"pass": r["pass_name"], "program": prog, "config": f"venom-{lvl}-cancun", "function": r["fn"], "theorem": thm,
                   "changes_not_justified_among": r["changes"][:12], "function_before": r["text_before"][:6000], "addr_space": r["addr_space"]}
-        if reported >= 3:
+        vkey = (f"C14M:{r['pass_name']}:{prog}" if s is not None else f"C14M:reject:{r['pass_name']}:{prog}")
+        if reported >= 3 or vkey in seen_keys:
             continue
+        seen_keys.add(vkey)
         reported += 1
         if s is not None:
             ctx.violation("failing-input", f"{r['pass_name']} makes a replacement the proved validator rejects and the compiled contract "
